@@ -40,8 +40,12 @@ pub fn programs() -> Vec<(&'static str, Vec<HRule>)> {
         ("and_of_derived", vec![one(X, A, true), one(Y, B, true), HRule { body: Body::And(A, B), head: G, value: true }]),
         ("dead_end_first", vec![one(B, G, true), one(X, G, true)]),
         ("wrong_then_right", vec![one(Y, A, false), one(X, G, true)]),
+        // plus one rule outside the Horn form (added in kb_of): F.c == "a b" -> F.a = true
+        ("string_condition", vec![one(A, G, true)]),
     ]
 }
+
+const TEXTS: [&str; 4] = ["a b", "a  b", " a b", "a b "];
 
 const QUERIES: [&str; 4] = ["F.g == true", "F.a == true", "F.g == false", "NOT F.g == true"];
 /// aggregate queries are queries too: one whose pattern can match, one that matches nothing, one whose WHERE
@@ -60,6 +64,8 @@ pub enum Op {
     /// the caller's facts become one object fact `F` holding the leaves selected by the mask
     FreshNested(u8),
     Aggregate(usize),
+    /// the text fact F.c becomes one of four strings that differ in blanks only
+    SetText(usize),
     /// set_config: 0 = DFS, 1 = BFS, 2 = DFS with max_solutions 3 (same max_depth throughout)
     SetConfig(u8),
     /// one GRL query text executed through GRLQueryExecutor::execute (it configures the engine itself)
@@ -104,7 +110,21 @@ fn grl_queries() -> Vec<String> {
 }
 
 fn kb_of(prog: &[HRule]) -> KnowledgeBase {
+    kb_named("", prog)
+}
+
+fn kb_named(name: &str, prog: &[HRule]) -> KnowledgeBase {
     let kb = KnowledgeBase::new("kb");
+    if name == "string_condition" {
+        use rust_rule_engine::engine::rule::{Condition, ConditionGroup, Rule};
+        use rust_rule_engine::types::{ActionType, Operator};
+        kb.add_rule(Rule::new(
+            "Text".to_string(),
+            ConditionGroup::single(Condition::new("F.c".to_string(), Operator::Equal, Value::String(TEXTS[0].to_string()))),
+            vec![ActionType::Set { field: format!("F.{}", FIELDS[A]), value: Value::Boolean(true) }],
+        ))
+        .unwrap();
+    }
     for (i, r) in prog.iter().enumerate() {
         kb.add_rule(r.build(&format!("R{}", i))).unwrap();
     }
@@ -148,7 +168,7 @@ impl Sys {
         Sys::with_alphabet(prog, with_rete, max_queries, 0)
     }
     pub fn with_alphabet(prog: usize, with_rete: bool, max_queries: usize, alphabet: u8) -> Self {
-        let kb = kb_of(&programs()[prog].1);
+        let kb = kb_named(programs()[prog].0, &programs()[prog].1);
         Sys {
             prog,
             eng: BackwardEngine::new(kb.clone()),
@@ -188,6 +208,9 @@ impl System for Sys {
             v.push(Op::FreshFacts(0));
             for m in 0..4u8 {
                 v.push(Op::FreshNested(m));
+            }
+            for t in 0..TEXTS.len() {
+                v.push(Op::SetText(t));
             }
             return v;
         }
@@ -262,6 +285,11 @@ impl System for Sys {
                 self.facts.set(&format!("F.{}", FIELDS[*k]), Value::String("true".to_string()));
                 self.changed();
                 Ok(5)
+            }
+            Op::SetText(t) => {
+                self.facts.set("F.c", Value::String(TEXTS[*t].to_string()));
+                self.changed();
+                Ok(8)
             }
             Op::FreshNested(m) => {
                 self.facts = store_nested(*m);
@@ -378,6 +406,7 @@ impl System for Sys {
             Op::RetractInRete => "retract_in_rete",
             Op::SetLeafString(_) => "change_fact_type",
             Op::FreshNested(_) => "fresh_nested_facts",
+            Op::SetText(_) => "set_text_fact",
             Op::Aggregate(_) => "aggregate_query",
             Op::SetConfig(_) => "set_config",
             Op::GrlQuery(_) => "grl_query",
@@ -413,7 +442,7 @@ pub fn run(opts: &Opts) -> Vec<Report> {
             total.merge(explore::explore(&move || Sys::with_alphabet(p, with_rete, maxq, alphabet), &cfg));
         }
         let expected: &[&str] = match alphabet {
-            1 => &["query", "assert_fact", "change_fact_type", "remove_fact", "fresh_facts", "fresh_nested_facts"],
+            1 => &["query", "assert_fact", "change_fact_type", "remove_fact", "fresh_facts", "fresh_nested_facts", "set_text_fact"],
             2 => &["query", "aggregate_query", "assert_fact", "fresh_facts"],
             3 => &["query", "set_config", "assert_fact", "fresh_facts"],
             4 => &["grl_query", "fresh_facts"],
@@ -425,11 +454,11 @@ pub fn run(opts: &Opts) -> Vec<Report> {
             }
         }
         total.bound = match alphabet {
-            1 => format!("12 programs x all histories of length <= {} over query(2 goals) / leaf = true / leaf = the string \"true\" / remove leaf / flat empty store / one object fact F holding any subset of the leaves; default configuration (memoisation on)", depth),
-            3 => format!("12 programs x all histories of length <= {} over query(2 goals) / set_config(DFS | BFS | DFS with max_solutions 3) / assert a leaf / empty store; the fresh engine is built with the configuration last asked for", depth),
+            1 => format!("13 programs x all histories of length <= {} over query(2 goals) / leaf = true / leaf = the string \"true\" / remove leaf / flat empty store / one object fact F holding any subset of the leaves / a text fact set to one of four strings that differ in blanks only (a 13th program has a rule conditioned on that text); default configuration (memoisation on)", depth),
+            3 => format!("13 programs x all histories of length <= {} over query(2 goals) / set_config(DFS | BFS | DFS with max_solutions 3) / assert a leaf / empty store; the fresh engine is built with the configuration last asked for", depth),
             4 => format!("program two_ways x all histories of length <= {} over 4 GRL query texts (max-depth 5|10 x max-solutions 1|3) through GRLQueryExecutor::execute / store with both leaves; verdict and number of solutions vs a fresh engine", depth),
-            2 => format!("12 programs x all histories of length <= {} over query(3 goals + a NOT goal) / query_aggregate(pattern that can match, matches nothing, does not parse) / assert a leaf / empty store; default configuration", depth),
-            _ => format!("12 programs x all histories of length <= {} (<= {} queries) over query(3 goals) / assert, change, remove a leaf fact / replace the caller's facts by one of 4 stores{}; default configuration (memoisation on)", depth, maxq, if with_rete { " / retract in the attached RETE engine" } else { "" }),
+            2 => format!("13 programs x all histories of length <= {} over query(3 goals + a NOT goal) / query_aggregate(pattern that can match, matches nothing, does not parse) / assert a leaf / empty store; default configuration", depth),
+            _ => format!("13 programs x all histories of length <= {} (<= {} queries) over query(3 goals) / assert, change, remove a leaf fact / replace the caller's facts by one of 4 stores{}; default configuration (memoisation on)", depth, maxq, if with_rete { " / retract in the attached RETE engine" } else { "" }),
         };
         out.push(total);
     }
